@@ -188,6 +188,10 @@ func (g *VGen) pool(t *ty.Ty, depth int) []*ty.Val {
 				out = append(out, &ty.Val{K: ty.VMap, Elems: []*ty.Val{k1, v2, k2, v1}})
 				if len(ks) > 2 {
 					out = append(out, &ty.Val{K: ty.VMap, Elems: []*ty.Val{ks[2], v1, k1, v2, k2, v1}})
+					// equal sizes, different key sets (a walk over one map's keys that looks them up in the other
+					// sees missing keys in both directions)
+					out = append(out, &ty.Val{K: ty.VMap, Elems: []*ty.Val{k1, v2, ks[2], v1}})
+					out = append(out, &ty.Val{K: ty.VMap, Elems: []*ty.Val{ks[2], v2, k2, v1}})
 				}
 			}
 		}
